@@ -14,6 +14,19 @@ blocks, no segments, no tags trees, no Gorilla encoding.  Core Lean only.
     sum/min/max/avg/count evaluate, per output group and per timestamp at which a member series has a
     point, the aggregate of the members' values (exact rationals).
 
+Empty label values and a tag named `__name__` (identity corner cases):
+  * C08 (identity): a tag ingested with the EMPTY STRING as value is part of the series' label set as ingested.
+    The unchanged engine stores `m{host="a",zone=""}` and `m{host="a"}` as two series and reports `zone=""`
+    for the first one, so the spec keeps them apart as well: `labels` are compared literally, empty values
+    included (merging them — PromQL would allow it — is NOT what the engine does, hence not granted).
+  * C09 matching: PromQL does not distinguish an empty label value from an absent label: `Series.label`
+    returns "" for both.  C09 grouping: the unchanged engine keeps an empty value as a value of its own
+    (`by (zone)` puts m{zone=""} into the group {zone=""}, not into {}), consistently with its identity
+    rule above; the statements leave this corner open and the spec states the engine's choice (`groupKey`
+    keeps empty-valued labels) so that any change of it is noticed.
+  * a tag literally named `__name__` is accepted by the ingest path and is just one more label of the
+    series' identity; matchers on `__name__` always address the metric name.
+
 Engine conventions the spec has to know in order to state the guard under which "same timestamp" is
 meaningful: the engine reports every point at the start of its downsample bucket, bucket width =
 `calcInterval (end - start)` (pkg/segment/results/mresults/metricresults.go `steps`/`CalculateInterval`,
@@ -155,10 +168,12 @@ def bitsToRat? (b : Nat) : Option Rat :=
 /-! ### aggregation -/
 
 def groupKey (a : Agg) (s : Series) : List (String × String) :=
-  sortLabels (match a.mode with
+  let picked : List (String × String) := match a.mode with
     | .none => []
     | .by => s.labels.filter (fun kv => a.labels.contains kv.1)
-    | .without => s.labels.filter (fun kv => !a.labels.contains kv.1))
+    | .without => s.labels.filter (fun kv => !a.labels.contains kv.1)
+  -- an empty label value is a value of its own (see the header: what the unchanged engine does)
+  sortLabels picked
 
 def dedup {α} [BEq α] (l : List α) : List α :=
   l.foldl (fun acc x => if acc.contains x then acc else acc ++ [x]) []
@@ -218,11 +233,17 @@ def classes (ds : List Series) (q : Query) (sel : List (Series × List (Nat × N
   let c5 := if sel.any (fun (s, _) => s.labels.any (fun kv => kv.2.contains ',')) then ["value-has-comma"] else []
   let c6 := if sel.any (fun (s, _) => s.labels.any (fun kv => kv.2.contains '"' || kv.2.contains '\\')) then ["json-escaped-tag-value"] else []
   let c6b := if hasDup' (q.matchers.map (·.label)) then ["same-label-twice"] else []
+  -- a regex matcher that REJECTS the empty string, on a label that a candidate series carries with the empty value
+  let c6c := if ingested.any (fun s => selects nameMs s && s.points.any (inRange q) &&
+                 q.matchers.any (fun m => m.label != "__name__" && (m.op == .re || m.op == .nre) &&
+                   s.labels.any (fun kv => kv.1 == m.label && kv.2.isEmpty) && !m.ok s)) then ["regex-on-empty-value"] else []
+  -- some ingested series has a tag value longer than 65535 bytes
+  let c6d := if ingested.any (fun s => s.labels.any (fun kv => kv.2.utf8ByteSize > 65535)) then ["tag-value-over-64k"] else []
   let c7 := match q.agg with
     | none => []
     | some a =>
       (if a.mode != .none && sel.any (fun (s, _) => (groupKey a s).isEmpty) then ["empty-group-key"] else [])
-  c1 ++ c2 ++ c3 ++ c4 ++ c5 ++ c6 ++ c6b ++ c7
+  c1 ++ c2 ++ c3 ++ c4 ++ c5 ++ c6 ++ c6b ++ c6c ++ c6d ++ c7
 
 def isSmallInt (q : Rat) : Bool := q.den == 1 && q.num.natAbs < pow2 40
 
